@@ -99,7 +99,7 @@ func pureWatcher() *fsnotify.Watcher {
 		cleanups = append(cleanups, func() { os.RemoveAll(dir) })
 		pureFile = filepath.Join(dir, "f")
 		check(os.WriteFile(pureFile, nil, 0o644))
-		pureW, err = fsnotify.NewWatcher()
+		pureW, err = newW()
 		check(err)
 	}
 	return pureW
